@@ -14,8 +14,10 @@ Which callees: functions of the rws crate that are NOT `pub` (a helper introduce
 containment predicate, 400 constructor, default-header builder, controllers, bootstrap stages - is a public function and stays a call), unless
 the caller of `inlined` widens or narrows that with `also` / `keep`."""
 import copy
+import re as _re
 from .facts import Fn
 
+CLOSURE_CALLS = ("std::ops::Fn::call", "std::ops::FnMut::call_mut", "std::ops::FnOnce::call_once")
 MAX_DEPTH = 4
 MAX_BLOCKS = 6000
 
@@ -116,9 +118,15 @@ def inlined(F, fn, also=(), keep=(), max_depth=MAX_DEPTH):
         if not name or name in keep:
             continue
         g = F.fns.get(name)
-        if g is None or g.kind not in ("Fn", "AssocFn"):
+        if g is None:
             continue
-        if not (is_private_helper(F, name) or name in also):
+        # a closure of the crate called directly (`let header = |n, v| Header{..}; header(a, b)`): a local helper like any other.
+        # (closures handed to std combinators are called inside std and are not seen here)
+        closure_call = g.kind == "Closure" and g.crate == "rws" and (t.get("callee") or "") in CLOSURE_CALLS and len(t["args"]) == 2 \
+            and t["args"][1].get("k") in ("copy", "move")
+        if g.kind not in ("Fn", "AssocFn") and not closure_call:
+            continue
+        if not (closure_call or is_private_helper(F, name) or name in also):
             continue
         if name in stack_of[bid] or depth_of[bid] >= max_depth or len(blocks) + len(g.raw["blocks"]) > MAX_BLOCKS:
             continue
@@ -142,6 +150,16 @@ def inlined(F, fn, also=(), keep=(), max_depth=MAX_DEPTH):
                 nb["term"] = {"k": "goto", "target": unwind, "span": gt.get("span")}
             else:
                 nb["term"] = _ren_term(gt, lo, bo)
+                # a generic private helper `fn offer<C: Controller>(..) { C::is_matching(..) .. }` called as `offer::<Index>(..)`: inside
+                # this copy the trait call on the type parameter is the call on the concrete type
+                nt = nb["term"]
+                cg = t.get("gargs") or []
+                if nt["k"] == "call" and not nt.get("is_resolved") and len(cg) == 1 and "::" in cg[0] and nt.get("gargs") \
+                        and _re.fullmatch(r"[A-Z]\w*", nt["gargs"][0] or "") and "::" in (nt.get("callee") or ""):
+                    trait_path, method = nt["callee"].rsplit("::", 1)
+                    cand = "<%s as %s>::%s" % (cg[0], trait_path, method)
+                    if cand in F.fns:
+                        nt["resolved"], nt["is_resolved"], nt["gargs"] = cand, True, [cg[0]] + list(nt["gargs"][1:])
             blocks.append(nb)
             origin[nb["id"]] = name
             depth_of[nb["id"]] = depth_of[bid] + 1
@@ -149,7 +167,15 @@ def inlined(F, fn, also=(), keep=(), max_depth=MAX_DEPTH):
             work.append(nb["id"])
         # the call site: bind the parameters, jump to the callee's entry
         sp = t.get("span")
-        for i, a in enumerate(t["args"]):
+        if closure_call:
+            # Fn::call(&closure, (a, b, ..)): the body's first parameter is the closure itself, the others are the fields of the tuple
+            b["stmts"].append({"k": "assign", "place": {"l": lo + 1, "p": []}, "rv": {"k": "use", "ops": [t["args"][0]]}, "span": sp})
+            tup = t["args"][1]
+            for i in range(max(0, g.nargs - 1)):
+                fld = {"k": "copy", "l": tup["l"], "p": list(tup["p"]) + [{"f": i, "n": str(i)}]}
+                b["stmts"].append({"k": "assign", "place": {"l": lo + 2 + i, "p": []}, "rv": {"k": "use", "ops": [fld]}, "span": sp})
+        else:
+          for i, a in enumerate(t["args"]):
             b["stmts"].append({"k": "assign", "place": {"l": lo + 1 + i, "p": []}, "rv": {"k": "use", "ops": [a]}, "span": sp})
         b["term"] = {"k": "goto", "target": bo, "span": sp, "inlined_call": name}
         inlined_callees.append(name)
